@@ -24,6 +24,13 @@ CHECKS = {
    text="Invariant ExpectedOutcome: every interleaving of both polarized modes ends with the same printed multiset (the reference one); real runs over "
         "modes x GOMAXPROCS x monitor x seeded yield injection must print equal multisets (non-polarized included for contraction-free programs).",
    note=RT_NOTE, technique="TLA+ spec + TLC over all interleavings + outcome comparison of real runs"),
+ "C04": dict(cat="model_checking", design="DESIGN.md 5 C04", engine="Sax",
+   text="Sax.tla is an independent futures-style SAX machine (write-once cells, closures for negative providers, no forwards / duplication / polarities); "
+        "TLC checks its own confluence, progress and single assignment on every interleaving of each small program and computes the reference multiset; "
+        "GritsRT's invariant ExpectedOutcome compares every interleaving of the interpreter spec with it; every print sequence observed from the real "
+        "interpreter (3 modes x cores x monitor x yield injection) is validated by SaxTrace.tla (prints logged, all other reference steps inferred).",
+   note=RT_NOTE + " np runs of programs with contraction are judged by multiset bounds only.",
+   technique="TLA+ reference semantics (Sax.tla) + TLC exhaustive confluence check + TLC trace validation of observed print sequences (SaxTrace.tla)"),
 }
 
 TY_NOTE = ("Trusted: TLC; the vworker request/response protocol; the shape grammar of TypeEnum.tla bounds the inputs (at most 3 names, one constructor "
@@ -102,6 +109,8 @@ def main():
               "kind_free_text": "TLA+ specification of the polarized interpreter (one action per critical section), checked by TLC"},
              {"name": "GritsRTTrace", "path": "spec/GritsRTTrace.tla", "serves_properties": ["C01", "C02", "C03", "C04"],
               "kind_free_text": "trace specification: recorded hook events of the real interpreter must be a behaviour of GritsRT"},
+             {"name": "Sax", "path": "spec/Sax.tla", "serves_properties": ["C04", "C03", "C14"],
+              "kind_free_text": "TLA+ reference semantics (futures-style SAX machine); SaxTrace.tla validates observed print sequences against it"},
              {"name": "TypeEq/WellFormed/ModeInfer/TypeDefs/Modes", "path": "spec/TypeEq.tla", "serves_properties": ["C08", "C10", "C16", "C17"],
               "kind_free_text": "TLA+ specifications of type equality, well-formedness, mode inference and the mode order; TLC validates call logs of the real library"},
              {"name": "Gen", "path": "spec/Gen.tla", "serves_properties": ["C01", "C02", "C03", "C04", "C05", "C06", "C07", "C09", "C14"],
